@@ -1471,6 +1471,10 @@ class BaseImage(metaclass=ImageMeta):
                 prev_img = img
                 try:
                     img = img.convert(mode)
+                    if alpha is None:
+                        # Transparency is disabled: a colour-key carried over from the
+                        # palette (or greyscale) source must not reach an image encoder.
+                        img.info.pop("transparency", None)
                 # Possible for images in some modes e.g "La"
                 except Exception as e:
                     raise RenderError("Unable to convert image") from e
